@@ -1,4 +1,4 @@
-import Pyrtma.Proofs.ManagerStats
+import Pyrtma.Proofs.ManagerStatsHist
 /-!
 # C18 — manager traffic statistics are exact
 
@@ -204,6 +204,66 @@ example : (run {} (exHist ++ [{ dt := 950 }])).hist =
   decide
 example : handled (sinceTick .trafficTick (run {} exHist).hist) 33 = 1 ∧ handled (sinceTick .timingTick (run {} (exHist ++ [{ dt := 950 }])).hist) 33 = 0 := by
   decide
+
+/-! ## Link theorems: the Spec's C18 clauses on the model's own run, for every history
+
+`mrPair cfg rs = (x, a)`: the model state after the rounds `rs`, played the way the driver's `modelRun` plays them (the
+event log starts afresh every round), and the abstract state `Spec.round` has computed from the model's own events of
+these rounds.  `stepR cfg x r` is the next round of the model, `Spec.roundPre cfg a r evs` the abstract state just before
+the periodic section of `Spec.round` (everything up to `Spec.tail`), `Spec.lastEvs evs` the last stretch of the round's
+events, in which `Spec.tail` looks for the reports (`Spec.round_eq`, `Spec.tail_parts`: `round = tail ∘ roundPre`, and
+`tail` is `timingPart`, the TIMING reset, `trafficPart`, the TRAFFIC reset, the INFO clock — provably equal pieces).
+
+Hypotheses, all satisfied by every case the generator produces (examples below): `CfgOK cfg`, `cfg.fuel = 0` (as for
+`model_never_crashes`), `MgrNotAll cfg` (no manager type is the ALL sentinel), `OrderGood cfg` (the iteration order of a
+subscriber set is a permutation of it), `RoundOK r` (no frame is "read from" the manager's own table entry, uid 0),
+`NoWrap` (fewer than 65536 manager-originated frames of one type in the whole history: the Spec's lower-bound clause
+presupposes it; *client* counters may wrap, the clause `counts` below is proved modulo 2¹⁶). -/
+
+/-- **TIMING link theorem.**  After any history `rs`, in the next round `r`, the TIMING clause of `Spec.tail` — when the
+period has elapsed: for every TIMING_MESSAGE in the round's last stretch, (1) every client type the Spec tallied is
+reported with exactly its tally modulo 2¹⁶, (2) no client type is reported that was not tallied, (3) for every observer
+and manager type the reported count is at least what that observer alone received, (4) every live connected module with
+a non-zero id held by it alone is reported with its pid; otherwise: no TIMING_MESSAGE at all — adds **no error** on the
+model's own events: the abstract state passes through unchanged. -/
+theorem spec_timing_clause_passes_on_model (cfg : Cfg) (ok : CfgOK cfg) (hfuel : cfg.fuel = 0) (hna : MgrNotAll cfg)
+    (hord : OrderGood cfg) (rs : List Round) (r : Round) (hrs : ∀ r' ∈ rs, RoundOK r') (hr : RoundOK r)
+    (hnw : NoWrap cfg (stepR cfg (mrPair cfg rs).1 r).hist) :
+    Spec.timingPart cfg (Spec.roundPre cfg (mrPair cfg rs).2 r (stepR cfg (mrPair cfg rs).1 r).out)
+        (Spec.lastEvs (stepR cfg (mrPair cfg rs).1 r).out) =
+      Spec.roundPre cfg (mrPair cfg rs).2 r (stepR cfg (mrPair cfg rs).1 r).out :=
+  timing_round ok hfuel (rinv_all ok hfuel hna hord rs hrs) hna hord r hr hnw
+
+/-- the simulation behind the link theorems: after any history the Spec's abstract state agrees with the model state on
+the clocks, on who is alive, on id / pid / connected flag of every table entry, its tallies of client frames are exactly
+the client marks of the ghost history since the last report, and its per-observer tallies are lower bounds -/
+theorem model_and_spec_state_agree (cfg : Cfg) (ok : CfgOK cfg) (hfuel : cfg.fuel = 0) (hna : MgrNotAll cfg)
+    (hord : OrderGood cfg) (rs : List Round) (hrs : ∀ r' ∈ rs, RoundOK r') :
+    RInv cfg (mrPair cfg rs).1 (mrPair cfg rs).2 := rinv_all ok hfuel hna hord rs hrs
+
+/-! ### Non-vacuity of the link theorems: the default configuration meets the hypotheses; in the last round of the
+history below the TIMING period has elapsed, module 3 (subscribed to TIMING_MESSAGE, type 80) gets the report and the
+Spec has tallied client type 5000 -/
+theorem cfgOK_default : CfgOK {} := ⟨by decide, by decide, by decide, fun _ _ h => h⟩
+example : MgrNotAll {} := by
+  intro t ht e
+  subst e
+  revert ht; decide
+example : OrderGood {} := fun l hl => ⟨hl, fun _ h => h⟩
+def exHist2 : List Round :=
+  [{ accept := true }, { accept := true }, { accept := true },
+   { reads := [exConn 1 1 10, exConn 2 2 11, exConn 3 3 12], writable := [1, 2, 3] },
+   { reads := [exSub 1 4 136 19, exSub 2 5 33 0, exSub 3 6 80 0], writable := [1, 2, 3] },
+   { failSet := [(1, some .hdr)], reads := [{ uid := 2, h := { k := 7, mtype := 5000 } }], writable := [1, 2, 3] }]
+def exLast : Round := { dt := 950, writable := [1, 2, 3], reads := [{ uid := 2, h := { k := 8, mtype := 5000 } }] }
+example : (∀ r ∈ exHist2, RoundOK r) ∧ RoundOK exLast := by decide
+example : NoWrap {} (stepR {} (mrPair {} exHist2).1 exLast).hist := by
+  intro t _
+  have : (stepR {} (mrPair {} exHist2).1 exLast).hist.length = 9 := by decide
+  exact Nat.lt_of_le_of_lt List.count_le_length (by omega)
+example : (Spec.sends (Spec.lastEvs (stepR {} (mrPair {} exHist2).1 exLast).out)).map (fun p => (p.1, p.2.2.mtype)) = [(3, 80)] ∧
+    (Spec.roundPre {} (mrPair {} exHist2).2 exLast (stepR {} (mrPair {} exHist2).1 exLast).out).pubT = [(5000, 2)] := by
+  decide +kernel
 
 /-! ### Non-vacuity: with 4 slots per sub-message, 10 distinct types make three sub-messages of 4, 4 and 2 entries -/
 def exCfg : Cfg := { trafficSize := 4 }
